@@ -5,6 +5,6 @@ cd "$(dirname "$0")/.."
 export CARGO_NET_OFFLINE=true
 [ -f harness/Cargo.lock ] || cp /repo/Cargo.lock harness/Cargo.lock
 (cd harness && cargo build --release --offline)
-for m in Base Props Trace Log Inflights Quorum MemStorage ConfChange Node RawNodeOps; do (cd spec && tla-sany $m.tla >/dev/null) || { echo "SANY failed for $m"; exit 1; }; done
+for m in Base Props Trace Log Inflights Quorum MemStorage ConfChange Node RawNodeOps RaftRs; do (cd spec && tla-sany $m.tla >/dev/null) || { echo "SANY failed for $m"; exit 1; }; done
 mkdir -p out evidence
 echo setup-ok
